@@ -22,6 +22,13 @@ Theorem C14_int_digits : forall o z, sep_ok (o_sep o) ->
 Proof. exact int_correct. Qed.
 Print Assumptions C14_int_digits.
 
+(* dec_digits is THE decimal numeral: any digit list without leading zero that has the
+   value n is dec_digits n (so "all digits are displayed" leaves no freedom) *)
+Theorem C14_int_canonical : forall n ds, n <> 0%N -> wfd ds -> ds <> [] -> hd 0%N ds <> 0%N ->
+  val ds = n -> ds = dec_digits n.
+Proof. exact dec_digits_unique. Qed.
+Print Assumptions C14_int_canonical.
+
 (* ... and that text is a literal of numbat's number syntax with value z * 10^0. *)
 Theorem C14_int : forall o z, sep_ok (o_sep o) ->
   exists s, display o (CInt z) = Out s /\
